@@ -274,9 +274,18 @@ static string gen_number(vt::Rng& r) {
       "1.000000000000000000000001", "0.1e1", "3e0", "7E-3", "1e300", "4.5e-300", "999999.5", "0.9999995", "1234567",
       // floats whose integer part does not fit 64 bits
       "12345678901234567890.5", "2857142857142857142857e-2", "100000000000000000000.0", "-98765432109876543210e0",
-      "18446744073709551616.0", "9223372036854775808.0", "-9223372036854775809.5e-1", "340282366920938463463374607431768211456e-10"};
+      "18446744073709551616.0", "9223372036854775808.0", "-9223372036854775809.5e-1", "340282366920938463463374607431768211456e-10",
+      // zero mantissa: the exponent, however large, does not matter
+      "0e10000", "-0.0E+54321", "0.000e-20000", "0e400", "0E-400", "0.0e99999", "-0e+1000", "0e0000000000000000001"};
   if (r.chance(50)) return fixed[r.below(sizeof(fixed) / sizeof(fixed[0]))];
   string s = r.chance(30) ? "-" : "";
+  if (r.chance(4)) {
+    s += "0";
+    if (r.chance(50)) s += "." + string(1 + r.below(4), '0');
+    s += r.chance(50) ? "e" : "E";
+    if (r.chance(60)) s += r.chance(50) ? "+" : "-";
+    return s + to_string(r.below(r.chance(50) ? 1000 : 1000000));
+  }
   bool wide = r.chance(12);
   if (wide) {
     s.push_back('1' + r.below(9));
